@@ -189,18 +189,26 @@ def load_corpus(pid):
     return out
 
 
+class DriverError(RuntimeError):
+    """The model driver itself failed: an infrastructure problem, never attributable to /repo."""
+
+
 def run_driver(lines):
     if not lines:
         return []
     data = ('\n'.join(lines) + '\n').encode()
-    p = subprocess.run([DRIVER], input=data, stdout=subprocess.PIPE, stderr=subprocess.PIPE)
+    try:
+        p = subprocess.run([os.environ.get('VERIF_DRIVER', DRIVER)], input=data, stdout=subprocess.PIPE,
+                           stderr=subprocess.PIPE)
+    except OSError as e:
+        raise DriverError('cannot run btcmodel: %s' % e)
     if p.returncode != 0:
-        raise RuntimeError('btcmodel exited %d: %s' % (p.returncode, p.stderr.decode()[-400:]))
+        raise DriverError('btcmodel exited %d: %s' % (p.returncode, p.stderr.decode()[-400:]))
     outs = p.stdout.decode().split('\n')
     if outs and outs[-1] == '':
         outs.pop()
     if len(outs) != len(lines):
-        raise RuntimeError('btcmodel answered %d lines for %d requests' % (len(outs), len(lines)))
+        raise DriverError('btcmodel answered %d lines for %d requests' % (len(outs), len(lines)))
     return outs
 
 
@@ -340,6 +348,8 @@ def _worker(args):
                 res['truncated'] = True
                 break
         flush()
+    except DriverError:
+        res['infra'] = traceback.format_exc(limit=4)
     except Exception:  # noqa: BLE001
         res['err'] = 'run: ' + traceback.format_exc(limit=6)
     finally:
@@ -408,6 +418,7 @@ def write_evidence(prop, tier, seed, wall, cov, audit, extra, violations):
         trusted_base=list(prop.trusted_base) + audit.get('trusted_base', []),
         theorems=audit.get('theorems', {}),
         table_obligations=audit.get('tables', {}),
+        system_theorems=audit.get('system_theorems', 'audited in the thorough tier'),
         rule=prop.rule,
     )
     coverage.update(cov)
@@ -463,6 +474,10 @@ def main_check(prop, modname, clsname, tier, seed):
     if setup_err is None:
         results = run_cases(prop, modname, clsname, run_tier, seed, budget)
 
+    infra = [r['infra'] for r in results if r.get('infra')]
+    if infra:
+        print('INFRA-ERROR: model driver failed: ' + infra[0][-600:])
+        return 2
     n = sum(r['n'] for r in results)
     keys = set()
     for r in results:
@@ -531,6 +546,21 @@ def main_check(prop, modname, clsname, tier, seed):
             nviol += 1
         exit_code = 1
 
+    # -- thorough tier: tests of the Spec — the vectors shipped with the repository replayed through the
+    #    Lean reference definitions only (never through Model.*, never through python-bitcoinlib) ----
+    spec_vectors = 'not run (thorough tier only)'
+    if tier == 'thorough':
+        try:
+            from . import specvec
+            spec_vectors = specvec.run_for(prop.id, tier='quick')
+            bad = {f: c for f, c in spec_vectors.items() if isinstance(c, dict) and c.get('disagree')}
+            if bad:
+                print('INFRA-ERROR: the Spec definitions disagree with shipped vectors: %r' % bad)
+                return 2
+        except DriverError as e:
+            print('INFRA-ERROR: ' + str(e))
+            return 2
+
     # -- canary: the comparison must fire on a deliberately wrong model answer -------------------
     canary = canary_selftest(prop, samples)
 
@@ -541,6 +571,7 @@ def main_check(prop, modname, clsname, tier, seed):
                known_findings_seen=sorted(seen_known), broken_ties=[n_ for n_, _ in broken_ties],
                shards=len(results), tier_run=run_tier,
                truncated_by_budget=any(r['truncated'] for r in results), canary=canary,
+               spec_vectors_as_tests=spec_vectors,
                leanchecker=b['audit'].get('leanchecker', 'not run (thorough tier only)'))
     write_evidence(prop, tier, seed, time.time() - t0, cov, b['audit'], {}, nviol)
     print('%s %s: %d cases (%d distinct non-trivial), %d theorem obligations discharged of %d, %d violation(s), %.1fs'
